@@ -208,6 +208,10 @@ class World:
     self.twins = {}         # dotted selector of a twin registration -> selector that owns the shared function
     self.calling = None
     self.reg_status = {}    # dotted selector -> 'ok' / exception class: every initial descriptor is valid by construction
+    for d in descriptors:
+      if d.get('twin') and not d.get('twin_of'):
+        d['twin_of'] = dotted(d['twin'])
+    descriptors = sorted(descriptors, key=lambda d: bool(d.get('twin_of')))     # owners before their twins
     self.all_desc = list(descriptors)
     for d in descriptors:
       if d['kind'] == 'meth':
@@ -314,6 +318,8 @@ class World:
     world = self
     is_cls = d['kind'] == 'cls'
     sig, names, defaults = self._signature_src(d, with_self=is_cls)
+    if d.get('twin') and not d.get('twin_of'):
+      d['twin_of'] = dotted(d['twin'])
     if d.get('twin_of'):
       # the very same function registered once more under another name, with its own allow / deny lists
       if d['twin_of'] not in self.originals:
